@@ -104,6 +104,10 @@ BENIGN = [
     ('b38-vec4-abs-by-shifts', 'src/f32/sse2/vec4.rs', 'Self(unsafe { crate::sse2::m128_abs(self.0) })', 'Self(unsafe { _mm_castsi128_ps(_mm_srli_epi32(_mm_slli_epi32(_mm_castps_si128(self.0), 1), 1)) })', ['C01', 'C07', 'C20'], 'abs by shifting the sign bit out'),
     ('b39-vec3a-length-sqrt-ss', 'src/f32/sse2/vec3a.rs', '_mm_cvtss_f32(_mm_sqrt_ps(dot))', '_mm_cvtss_f32(_mm_sqrt_ss(dot))', ['C02', 'C07', 'C08', 'C12'], 'scalar square root instruction for a lane-0 result'),
     ('b40-vec4-wzyx-pshufd', 'src/swizzles/sse2/vec4_impl.rs', 'fn wzyx(self) -> Vec4 {\n        Vec4(unsafe { _mm_shuffle_ps(self.0, self.0, 0b00_01_10_11) })', 'fn wzyx(self) -> Vec4 {\n        Vec4(unsafe { _mm_castsi128_ps(_mm_shuffle_epi32(_mm_castps_si128(self.0), 0b00_01_10_11)) })', ['C16', 'C07'], 'swizzle through the integer shuffle'),
+    ('b41-vec3-sum-ref-delegates', 'src/f32/vec3.rs', "I: Iterator<Item = &'a Self>,\n    {\n        iter.fold(Self::ZERO, |a, &b| Self::add(a, b))", "I: Iterator<Item = &'a Self>,\n    {\n        iter.copied().sum()", ['C01', 'C18'], 'Sum<&Self> delegating to the by-value impl'),
+    ('b42-bvec3a-all-popcount', 'src/bool/sse2/bvec3a.rs', 'self.bitmask() == 0x7', 'self.bitmask().count_ones() == 3', ['C15', 'C01', 'C07'], 'all() through popcount'),
+    ('b43-bvec3a-mask-wrapping-neg', 'src/bool/sse2/bvec3a.rs', 'MASK[x as usize], MASK[y as usize], MASK[z as usize], 0', '(x as u32).wrapping_neg(), (y as u32).wrapping_neg(), (z as u32).wrapping_neg(), 0', ['C15', 'C08'], 'mask lanes built with wrapping_neg'),
+    ('b44-dvec3-is-normalized-two-sided', 'src/f64/dvec3.rs', 'math::abs(self.length_squared() - 1.0) <= 2e-4', '{\n            let d = self.length_squared() - 1.0;\n            -2e-4 <= d && d <= 2e-4\n        }', ['C20', 'C02'], 'is_normalized as a two-sided range test'),
     ('b09-cross-operand-order', 'src/f32/vec3.rs', 'x: self.y * rhs.z - rhs.y * self.z,', 'x: self.y * rhs.z - self.z * rhs.y,', ['C02', 'C03', 'C07', 'C11'], 'commuted product inside cross'),
 ]
 
